@@ -78,7 +78,9 @@ Inductive event :=
 | Remove (p : N)               (* the peer is removed from the device: keypairs and index entries deleted, its allowed-IPs
                                   leave the table, no handshake with it is possible any more *)
 | Age (p ns : N)               (* creation time of all keypairs of p moved ns into the past *)
-| Dgrams (l : list dgram).     (* datagrams delivered in this order *)
+| Dgrams (l : list dgram)      (* datagrams delivered in this order *)
+| DgramsTunFail (l : list dgram).   (* the same while tun.Write fails: everything is processed and credited as usual, the
+                                       packets of this step are lost for good (never written later) *)
 
 (* RoutineReceiveIncoming: size < MinMessageSize -> skip; msgType; len < MessageTransportSize -> skip *)
 Definition gate (typeword len : N) : bool :=
@@ -176,6 +178,9 @@ Definition fresh_filter : sstate := fst (sstep sempty (Validate 0 RejectAfterMes
 Definition step (st : state) (ev : event) : state * list res :=
   match ev with
   | Dgrams l => run recv1 st l
+  | DgramsTunFail l =>
+      let '(st', rs) := run recv1 st l in
+      (st', map (fun r => {| r_write := None; r_rx := r_rx r |}) rs)
   | Age p ns =>
       ({| s_tbl := s_tbl st;
           s_peers := match nth_error (s_peers st) (N.to_nat p) with
